@@ -78,6 +78,26 @@ type scanSink struct {
 // findScanSinks finds `append(results, T{vector: e, distance: d})` sites.
 func findScanSinks(fn *ssa.Function) []scanSink {
 	var out []scanSink
+	// admissions inside function literals of the routine (a callback handed to an iterator, a goroutine) count too: a
+	// second admission path the rules cannot follow must not go unnoticed behind a well-formed first one
+	var fns []*ssa.Function
+	var collect func(f *ssa.Function)
+	collect = func(f *ssa.Function) {
+		fns = append(fns, f)
+		for _, af := range f.AnonFuncs {
+			collect(af)
+		}
+	}
+	collect(fn)
+	for _, f := range fns {
+		findScanSinksIn(f, &out)
+	}
+	return dropCopySinks(out)
+}
+
+func findScanSinksIn(fn *ssa.Function, outp *[]scanSink) {
+	out := *outp
+	defer func() { *outp = out }()
 	allInstrs(fn, func(in ssa.Instruction) {
 		c, ok := isBuiltinCall(in, "append")
 		if !ok {
@@ -104,7 +124,100 @@ func findScanSinks(fn *ssa.Function) []scanSink {
 			out = append(out, s)
 		}
 	})
+}
+
+func dropCopySinks(out []scanSink) []scanSink {
+	if len(out) > 1 {
+		// a loop that copies the admitted candidates into the result type with append (`for _, r := range results[:k] {
+		// final = append(final, VectorResult{Node: r.vector, Score: r.distance}) }`) is not an admission: its element is
+		// read from the slice another sink fills
+		var keep []scanSink
+		for i, b := range out {
+			copyOf := false
+			base := elemBaseOf(b.Elem)
+			for j, a := range out {
+				if i == j || base == nil {
+					continue
+				}
+				if cell := sinkCell(a); cell != nil && cellOf(base) == cell {
+					copyOf = true
+				}
+				if derivesFromValue(base, a.Call, 0) {
+					copyOf = true
+				}
+			}
+			if !copyOf {
+				keep = append(keep, b)
+			}
+		}
+		if len(keep) > 0 {
+			out = keep
+		}
+	}
 	return out
+}
+
+// elemBaseOf: v is X[i].f / X[a:b][i].f (or X[i]); returns X.
+func elemBaseOf(v ssa.Value) ssa.Value {
+	for d := 0; d < 8; d++ {
+		switch x := v.(type) {
+		case *ssa.UnOp:
+			if x.Op != token.MUL {
+				return nil
+			}
+			if a, ok := x.X.(*ssa.Alloc); ok {
+				// a copy of the element in an addressable local (r := results[i])
+				if sv := singleStore(a); sv != nil {
+					v = sv
+					continue
+				}
+				return nil
+			}
+			v = x.X
+		case *ssa.Alloc:
+			sv := singleStore(x)
+			if sv == nil {
+				return nil
+			}
+			v = sv
+		case *ssa.FieldAddr:
+			v = x.X
+		case *ssa.Field:
+			v = x.X
+		case *ssa.IndexAddr:
+			b := x.X
+			if sl, ok := b.(*ssa.Slice); ok {
+				b = sl.X
+			}
+			return b
+		case *ssa.Index:
+			return x.X
+		default:
+			return nil
+		}
+	}
+	return nil
+}
+
+// derivesFromValue: v is from, or a phi / re-slice of it.
+func derivesFromValue(v, from ssa.Value, depth int) bool {
+	if v == from {
+		return true
+	}
+	if depth > 6 {
+		return false
+	}
+	switch x := v.(type) {
+	case *ssa.Phi:
+		for _, e := range x.Edges {
+			if e != v && derivesFromValue(e, from, depth+1) {
+				return true
+			}
+		}
+	case *ssa.Slice:
+		return derivesFromValue(x.X, from, depth+1)
+	}
+	return false
 }
 
 func isZeroConst(v ssa.Value) bool {
@@ -287,6 +400,7 @@ func ruleScanADM(r *Run, rule string, k *vecKind, spec admSpec) {
 		takens   []bool
 	}
 	var infos []pinfo
+	earlyExit := ""
 	sawDEL, sawSKIP, sawTHR := false, false, false
 	for _, p := range paths {
 		if p.End == EndCycle {
@@ -295,10 +409,35 @@ func ruleScanADM(r *Run, rule string, k *vecKind, spec admSpec) {
 		if p.End == EndStop && len(p.Blocks) == 2 && !loop.Blocks[p.Blocks[1]] {
 			continue // loop exit from the header
 		}
+		// an iteration that leaves the loop from inside the body ends the scan: every later candidate is dropped
+		// unseen (a `break` where a `continue` belongs). Leaving with an error return is a different matter.
+		if p.End == EndStop && !loop.Blocks[p.Blocks[len(p.Blocks)-1]] {
+			earlyExit = w.InstrPos(p.Blocks[len(p.Blocks)-2].Instrs[len(p.Blocks[len(p.Blocks)-2].Instrs)-1])
+			continue
+		}
+		if p.End == EndReturn && p.Ret != nil && errIndex(fn) >= 0 && pathErrClass(p) != ErrNonNil {
+			earlyExit = w.InstrPos(p.Ret)
+			continue
+		}
 		// variants: a decision on a call to a pure predicate of the package (s.skipCandidate(filter, &v)) is replaced by
 		// the decisions of each of the predicate's own paths that yields the taken outcome
 		variants := []pinfo{{p: p, admitted: p.Has(sink.Call)}}
+		infeasible := false
 		for _, d := range p.Decisions {
+			// a condition computed earlier and kept in a variable (`beyond := thr > 0 && dist > thr; if !beyond`) is the
+			// operand the phi received on this path
+			if rc, rneg, isConst, cv, ok := condOnPath(p, d); ok {
+				if isConst {
+					if cv != d.Taken {
+						infeasible = true
+					}
+					continue
+				}
+				d.Cond = rc
+				if rneg {
+					d.Taken = !d.Taken
+				}
+			}
 			a := classify(d.Cond)
 			var inner []predPath
 			if a.kind == aUnknown {
@@ -332,6 +471,9 @@ func ruleScanADM(r *Run, rule string, k *vecKind, spec admSpec) {
 			}
 			variants = next
 		}
+		if infeasible {
+			continue
+		}
 		for _, pi := range variants {
 			for _, a := range pi.atoms {
 				switch a.kind {
@@ -348,6 +490,8 @@ func ruleScanADM(r *Run, rule string, k *vecKind, spec admSpec) {
 			infos = append(infos, pi)
 		}
 	}
+	r.Check(earlyExit == "", rule, k.Name+":scan-complete", site, "no iteration of the candidate loop ends the scan (only the loop condition does)",
+		"an iteration of the candidate loop leaves the loop at "+earlyExit+": the candidates after it are never examined")
 	if len(problems) > 0 {
 		sort.Strings(problems)
 		r.Bad(rule, k.Name+":atoms", site, strings.Join(dedup(problems), "; "))
@@ -635,4 +779,36 @@ func lastIndexExpr(s string) (string, bool) {
 		}
 	}
 	return "", false
+}
+
+// condOnPath: the branch condition of decision d is (a negation of) a boolean phi; returns the operand the phi received
+// on the path — a constant (isConst, cv) or another condition (rc, to be negated when rneg).
+func condOnPath(p *Path, d Decision) (rc ssa.Value, rneg, isConst, cv, ok bool) {
+	cond := d.Cond
+	neg := false
+	changed := false
+	for i := 0; i < 8; i++ {
+		if u, isU := cond.(*ssa.UnOp); isU && u.Op == token.NOT {
+			neg = !neg
+			cond = u.X
+			continue
+		}
+		ph, isPhi := cond.(*ssa.Phi)
+		if !isPhi {
+			break
+		}
+		e := p.PhiEdgeAt(ph, d.At)
+		if e == nil {
+			break
+		}
+		cond = e
+		changed = true
+	}
+	if !changed {
+		return nil, false, false, false, false
+	}
+	if k, isK := cond.(*ssa.Const); isK && k.Value != nil && k.Value.Kind() == constant.Bool {
+		return nil, false, true, constant.BoolVal(k.Value) != neg, true
+	}
+	return cond, neg, false, false, true
 }
